@@ -1,4 +1,5 @@
-(* C17 proofs, part 2: bdecode (bencode v) for every value the dict-end quirk lets through. No axioms. *)
+(* C17 proofs, part 2: bdecode (bencode v) = v for every value, and every proper prefix of an encoding is
+   rejected (decoder as repaired by 67aa5e2: a dictionary's end marker is consumed). No axioms. *)
 From Coq Require Import NArith ZArith List Bool Lia.
 From Coq.Strings Require Import Byte.
 From LV Require Import Lib.Bytes Lib.Decimal Model.C17 Proofs.C17_Int.
@@ -38,51 +39,8 @@ Section BvalInd.
 End BvalInd.
 
 (* ------------------------------------------------------------------------------------------ *)
-(* what the decoder leaves unconsumed, and the values it reads back                             *)
+(* the values the codec reads back                                                               *)
 (* ------------------------------------------------------------------------------------------ *)
-
-(* _bdecode returns the index OF a dict's closing 'e'.  [pending v] is the number of 'e' bytes of
-   bencode(v) that the decoder leaves unread: a dict leaves its own 'e' plus whatever its last value
-   left; a list consumes exactly one 'e', so it passes on what its last element left. *)
-Fixpoint pending (v : bval) : nat :=
-  match v with
-  | BInt _ | BStr _ => O
-  | BList l =>
-      (fix go (l : list bval) : nat :=
-         match l with
-         | [] => O
-         | x :: r => match r with [] => pending x | _ => go r end
-         end) l
-  | BDict d =>
-      S ((fix go (d : list (bval * bval)) : nat :=
-            match d with
-            | [] => O
-            | (_, x) :: r => match r with [] => pending x | _ => go r end
-            end) d)
-  end.
-
-Fixpoint pending_list (l : list bval) : nat :=
-  match l with
-  | [] => O
-  | x :: r => match r with [] => pending x | _ => pending_list r end
-  end.
-
-Lemma pending_BList l : pending (BList l) = pending_list l.
-Proof. induction l as [|x r IH]; [reflexivity|]. destruct r; [reflexivity|]. exact IH. Qed.
-
-Lemma pending_BDict d : pending (BDict d) = S (pending_list (map snd d)).
-Proof.
-  cbn [pending]. f_equal.
-  induction d as [|[k x] r IH]; [reflexivity|]. destruct r as [|q r']; [reflexivity|].
-  cbn [map pending_list] in *. destruct (map snd r') eqn:E; exact IH.
-Qed.
-
-(* every element but the last leaves nothing unread *)
-Fixpoint inner_closed (l : list bval) : Prop :=
-  match l with
-  | [] => True
-  | x :: r => match r with [] => True | _ => pending x = O /\ inner_closed r end
-  end.
 
 Definition key_ok (k : bval) : Prop :=
   match k with BInt z => int_ok z | BStr s => small s | _ => False end.
@@ -99,15 +57,16 @@ Fixpoint keys_nodup (d : list (bval * bval)) : Prop :=
   | p :: r => Forall (fun q => key_eqb (fst p) (fst q) = false) r /\ keys_nodup r
   end.
 
-(* values that bdecode (bencode v) reads back as v: integers and lengths within Python's 4300 digit
-   limit, dictionaries with int/bytes keys listed in key order without repetition, and a dictionary
-   (or a list ending in one) only as the LAST element of its list / last value of its dictionary *)
-Inductive wfq : bval -> Prop :=
-| wfq_int z : int_ok z -> wfq (BInt z)
-| wfq_str s : small s -> wfq (BStr s)
-| wfq_list l : Forall wfq l -> inner_closed l -> wfq (BList l)
-| wfq_dict d : Forall (fun p => key_ok (fst p) /\ wfq (snd p)) d -> keys_sorted d = true ->
-               keys_nodup d -> inner_closed (map snd d) -> wfq (BDict d).
+(* values that bdecode (bencode v) reads back as the SAME value: integers and string lengths within Python's
+   4300 digit limit (longer ones can be neither printed nor read), dictionary keys int / bytes (the only
+   hashable results), listed in key order without repetition (bencode sorts the keys; a Python dict has no
+   repeated keys).  Dictionaries and lists may be nested anywhere. *)
+Inductive wfv : bval -> Prop :=
+| wfv_int z : int_ok z -> wfv (BInt z)
+| wfv_str s : small s -> wfv (BStr s)
+| wfv_list l : Forall wfv l -> wfv (BList l)
+| wfv_dict d : Forall (fun p => key_ok (fst p) /\ wfv (snd p)) d -> keys_sorted d = true ->
+               keys_nodup d -> wfv (BDict d).
 
 Fixpoint depth_of (v : bval) : nat :=
   match v with
@@ -115,8 +74,6 @@ Fixpoint depth_of (v : bval) : nat :=
   | BList l => S (fold_right (fun x m => Nat.max (depth_of x) m) 0%nat l)
   | BDict d => S (fold_right (fun (p : bval * bval) m => Nat.max (let (_, x) := p in depth_of x) m) 1%nat d)
   end.
-
-Definition es (n : nat) : bytes := repeat c_e n.
 
 (* ------------------------------------------------------------------------------------------ *)
 (* encoder facts                                                                               *)
@@ -245,9 +202,6 @@ Proof.
   - unfold isb. rewrite N_of_c_colon. reflexivity.
 Qed.
 
-Lemma es_shift p T : es p ++ c_e :: T = c_e :: es p ++ T.
-Proof. unfold es. induction p as [|p IH]; [reflexivity|]. cbn [repeat app]. rewrite IH. reflexivity. Qed.
-
 Lemma isb_e_c_e : isb 101 c_e = true.
 Proof. unfold isb. rewrite N_of_c_e. reflexivity. Qed.
 
@@ -262,7 +216,7 @@ Proof. reflexivity. Qed.
 
 Lemma dict_loop_cons dec1 st c cur' acc :
   dict_loop dec1 (S st) (c :: cur') acc =
-  if isb 101 c then Ok (BDict acc, c :: cur')
+  if isb 101 c then Ok (BDict acc, cur')
   else match dec1 (c :: cur') with
        | Err e => Err e
        | Ok (k, cur2) =>
@@ -276,14 +230,13 @@ Proof. reflexivity. Qed.
 
 (* the list loop on the encodings of l followed by 'e' *)
 Lemma list_loop_spec dec1 l : forall acc steps T,
-  Forall (fun x => forall T', dec1 (benc x ++ T') = Ok (x, es (pending x) ++ T')) l ->
-  inner_closed l -> (length l < steps)%nat ->
-  list_loop dec1 steps (concat (map benc l) ++ c_e :: T) acc
-  = Ok (BList (rev acc ++ l), es (pending_list l) ++ T).
+  Forall (fun x => forall T', dec1 (benc x ++ T') = Ok (x, T')) l ->
+  (length l < steps)%nat ->
+  list_loop dec1 steps (concat (map benc l) ++ c_e :: T) acc = Ok (BList (rev acc ++ l), T).
 Proof.
-  induction l as [|x r IH]; intros acc steps T Hd Hc Hs.
+  induction l as [|x r IH]; intros acc steps T Hd Hs.
   - destruct steps as [|st]; [simpl in Hs; lia|].
-    cbn [map concat app list_loop]. rewrite isb_e_c_e. rewrite app_nil_r. reflexivity.
+    cbn [map concat app]. rewrite list_loop_cons, isb_e_c_e, app_nil_r. reflexivity.
   - destruct steps as [|st]; [simpl in Hs; lia|].
     inversion Hd as [|? ? Hx Hr]; subst.
     cbn [map concat]. rewrite <- app_assoc.
@@ -291,14 +244,8 @@ Proof.
     assert (Hdata : benc x ++ concat (map benc r) ++ c_e :: T = b :: t ++ concat (map benc r) ++ c_e :: T).
     { rewrite Eb. reflexivity. }
     rewrite Hdata, list_loop_cons, Hb, <- Hdata, Hx.
-    destruct r as [|y r'].
-    + (* x is the last element: its pending 'e's come first, the loop eats one *)
-      cbn [map concat app]. rewrite es_shift.
-      destruct st as [|st']; [simpl in Hs; lia|].
-      rewrite list_loop_cons, isb_e_c_e. cbn [rev pending_list]. reflexivity.
-    + cbn [inner_closed] in Hc. destruct Hc as [Hp Hc]. rewrite Hp. cbn [es repeat app].
-      rewrite (IH (x :: acc) st T Hr Hc) by (simpl in *; lia).
-      cbn [rev]. rewrite <- app_assoc. reflexivity.
+    rewrite (IH (x :: acc) st T Hr) by (simpl in *; lia).
+    cbn [rev]. rewrite <- app_assoc. reflexivity.
 Qed.
 
 Lemma pydict_set_fresh acc k v :
@@ -315,16 +262,15 @@ Proof. destruct k; simpl; intro H; try reflexivity; contradiction. Qed.
 Lemma dict_loop_spec dec1 d : forall acc steps T,
   Forall (fun p => key_ok (fst p)
                    /\ (forall T', dec1 (benc (fst p) ++ T') = Ok (fst p, T'))
-                   /\ (forall T', dec1 (benc (snd p) ++ T') = Ok (snd p, es (pending (snd p)) ++ T'))) d ->
-  inner_closed (map snd d) -> keys_nodup d ->
+                   /\ (forall T', dec1 (benc (snd p) ++ T') = Ok (snd p, T'))) d ->
+  keys_nodup d ->
   Forall (fun a => Forall (fun q => key_eqb (fst a) (fst q) = false) d) acc ->
   (length d < steps)%nat ->
-  dict_loop dec1 steps (benc_items d ++ c_e :: T) acc
-  = Ok (BDict (acc ++ d), es (S (pending_list (map snd d))) ++ T).
+  dict_loop dec1 steps (benc_items d ++ c_e :: T) acc = Ok (BDict (acc ++ d), T).
 Proof.
-  induction d as [|[k x] r IH]; intros acc steps T Hd Hc Hn Ha Hs.
+  induction d as [|[k x] r IH]; intros acc steps T Hd Hn Ha Hs.
   - destruct steps as [|st]; [simpl in Hs; lia|].
-    unfold benc_items. cbn [map concat app dict_loop]. rewrite isb_e_c_e. rewrite app_nil_r. reflexivity.
+    unfold benc_items. cbn [map concat app]. rewrite dict_loop_cons, isb_e_c_e, app_nil_r. reflexivity.
   - destruct steps as [|st]; [simpl in Hs; lia|].
     inversion Hd as [|? ? Hkx Hr]; subst. cbn [fst snd] in Hkx. destruct Hkx as (Hk & Hdk & Hdx).
     unfold benc_items. cbn [map concat fst snd]. fold (benc_items r).
@@ -340,16 +286,8 @@ Proof.
     { apply Forall_app. split.
       - eapply Forall_impl; [|exact Ha]. intros a Hq. inversion Hq; subst. assumption.
       - constructor; [exact Hkr | constructor]. }
-    destruct r as [|q r'].
-    + (* last item *)
-      unfold benc_items at 1. cbn [map concat app]. rewrite es_shift.
-      destruct st as [|st']; [simpl in Hs; lia|].
-      rewrite dict_loop_cons, isb_e_c_e.
-      cbn [map snd pending_list]. rewrite <- es_shift. cbn [es repeat app]. rewrite <- es_shift.
-      reflexivity.
-    + cbn [map snd inner_closed] in Hc. destruct Hc as [Hp Hc]. rewrite Hp. cbn [es repeat app].
-      rewrite (IH (acc ++ [(k, x)]) st T Hr Hc Hn Ha') by (simpl in *; lia).
-      rewrite <- app_assoc. reflexivity.
+    rewrite (IH (acc ++ [(k, x)]) st T Hr Hn Ha') by (simpl in *; lia).
+    rewrite <- app_assoc. reflexivity.
 Qed.
 
 Lemma fold_max_le {A} (f : A -> nat) (l : list A) (b : nat) x :
@@ -377,20 +315,30 @@ Proof.
   cbn [map concat]. rewrite app_length. destruct H as [->|H]; [lia|]. specialize (IH H). lia.
 Qed.
 
-(* MAIN: one call of the decoder on bencode(v) followed by anything *)
-Theorem bdec_benc : forall v, wfq v -> forall steps depth T,
+Lemma bdec_l steps dp rest : bdec steps (S dp) (c_l :: rest) = list_loop (bdec steps dp) steps rest [].
+Proof.
+  cbn [bdec]. unfold isb at 1. rewrite N_of_c_l. cbn [N.eqb Pos.eqb].
+  unfold isb at 1. rewrite N_of_c_l. cbn [N.eqb Pos.eqb]. reflexivity.
+Qed.
+
+Lemma bdec_d steps dp rest : bdec steps (S dp) (c_d :: rest) = dict_loop (bdec steps dp) steps rest [].
+Proof.
+  cbn [bdec]. unfold isb at 1. rewrite N_of_c_d. cbn [N.eqb Pos.eqb].
+  unfold isb at 1. rewrite N_of_c_d. cbn [N.eqb Pos.eqb].
+  unfold isb at 1. rewrite N_of_c_d. cbn [N.eqb Pos.eqb]. reflexivity.
+Qed.
+
+(* MAIN: one call of the decoder on bencode(v) followed by anything returns v and leaves exactly what followed *)
+Theorem bdec_benc : forall v, wfv v -> forall steps depth T,
   (depth_of v <= depth)%nat -> (length (benc v) <= steps)%nat ->
-  bdec steps depth (benc v ++ T) = Ok (v, es (pending v) ++ T).
+  bdec steps depth (benc v ++ T) = Ok (v, T).
 Proof.
   induction v as [z|s|l IHl|d IHd] using bval_ind'; intros Hw steps depth T Hdep Hst.
   - inversion Hw; subst. destruct depth as [|dp]; [simpl in Hdep; lia|]. apply bdec_int. assumption.
   - inversion Hw; subst. destruct depth as [|dp]; [simpl in Hdep; lia|]. apply bdec_str. assumption.
-  - inversion Hw as [| |l' Hwl Hcl|]; subst.
+  - inversion Hw as [| |l' Hwl|]; subst.
     destruct depth as [|dp]; [simpl in Hdep; lia|].
-    rewrite benc_BList in *. cbn [app bdec]. unfold isb at 1. rewrite N_of_c_l. cbn [N.eqb Pos.eqb].
-    unfold isb at 1. rewrite N_of_c_l. cbn [N.eqb Pos.eqb].
-    rewrite <- app_assoc. cbn [app].
-    rewrite pending_BList.
+    rewrite benc_BList in *. cbn [app]. rewrite bdec_l. rewrite <- app_assoc. cbn [app].
     rewrite (list_loop_spec (bdec steps dp) l [] steps T).
     + reflexivity.
     + apply Forall_forall. intros x Hx T'.
@@ -398,17 +346,11 @@ Proof.
       * cbn [depth_of] in Hdep. pose proof (fold_max_le depth_of l 0%nat x Hx). lia.
       * cbn [length] in Hst. rewrite app_length in Hst.
         pose proof (length_concat_in benc l x Hx). unfold bytes in *. lia.
-    + exact Hcl.
     + cbn [length] in Hst. rewrite app_length in Hst. cbn [length] in Hst.
       pose proof (length_concat_ge benc l benc_length_pos). unfold bytes in *. lia.
-  - inversion Hw as [| | |d' Hwd Hks Hkn Hcd]; subst.
+  - inversion Hw as [| | |d' Hwd Hks Hkn]; subst.
     destruct depth as [|dp]; [simpl in Hdep; lia|].
-    rewrite (benc_BDict d Hks) in *. cbn [app bdec].
-    unfold isb at 1. rewrite N_of_c_d. cbn [N.eqb Pos.eqb].
-    unfold isb at 1. rewrite N_of_c_d. cbn [N.eqb Pos.eqb].
-    unfold isb at 1. rewrite N_of_c_d. cbn [N.eqb Pos.eqb].
-    rewrite <- app_assoc. cbn [app].
-    rewrite pending_BDict.
+    rewrite (benc_BDict d Hks) in *. cbn [app]. rewrite bdec_d. rewrite <- app_assoc. cbn [app].
     assert (Hdp : (2 <= S dp)%nat).
     { cbn [depth_of] in Hdep.
       pose proof (fold_max_base (fun p : bval * bval => let (_, x) := p in depth_of x) d 1%nat). lia. }
@@ -426,7 +368,6 @@ Proof.
         -- cbn [length] in Hst. rewrite app_length in Hst. unfold benc_items in Hst.
            pose proof (length_concat_in (fun p : bval * bval => benc (fst p) ++ benc (snd p)) d (k, x) Hin) as Hl.
            cbn [fst snd] in Hl. rewrite app_length in Hl. unfold bytes in *. lia.
-    + exact Hcd.
     + exact Hkn.
     + constructor.
     + cbn [length] in Hst. rewrite app_length in Hst. cbn [length] in Hst. unfold benc_items in Hst.
@@ -436,9 +377,9 @@ Proof.
       specialize (Hl H). unfold bytes in *. lia.
 Qed.
 
-(* bdecode(bencode(dict)): the top-level result ignores the unread tail *)
+(* bdecode(bencode(dict)) *)
 Corollary bdecode_benc d fuel :
-  wfq (BDict d) -> (depth_of (BDict d) <= fuel)%nat -> bdecode fuel (benc (BDict d)) = Ok d.
+  wfv (BDict d) -> (depth_of (BDict d) <= fuel)%nat -> bdecode fuel (benc (BDict d)) = Ok d.
 Proof.
   intros Hw Hf. unfold bdecode.
   destruct (benc_head (BDict d)) as (b & r & E & _).
